@@ -110,6 +110,13 @@ def main():
         # a deformation that is not an X/Z swap (XY: Y<->Z) under noise with r_x = r_z != r_y
         ((0.1, 0.8, 0.1), 'XY', {}, 0.25, [('Planar2DCode', (2, 2)), ('RotatedPlanar2DCode', (2, 3)), ('Toric2DCode', (2, 2))],
          lambda c, e, p: MatchingDecoder(c, e, p), 'Matching'),
+        # deformations that depend on the POSITION of a qubit, not only on its orientation (rhombic, colour codes)
+        ((0.75, 0.0, 0.25), 'Checkerboard XZZX', {}, 0.2, [('RhombicPlanarCode', (2, 2, 1))],
+         lambda c, e, p: BeliefPropagationOSDDecoder(c, e, p, max_bp_iter=8, osd_order=0), 'BP-OSD'),
+        ((1.0, 0.0, 0.0), 'Checkerboard XZZX', {}, 0.15, [('RhombicPlanarCode', (2, 2, 2))],
+         lambda c, e, p: BeliefPropagationOSDDecoder(c, e, p, max_bp_iter=8, osd_order=0), 'BP-OSD'),
+        ((0.75, 0.0, 0.25), 'XXZZ', {}, 0.2, [('Color488Code', (1, 1))],
+         lambda c, e, p: BeliefPropagationOSDDecoder(c, e, p, max_bp_iter=8, osd_order=0), 'BP-OSD'),
     ]
     if tier == 'thorough':
         cal_sets.append(((0.0, 0.0, 1.0), 'XZZX', {'deformation_axis': 'x'}, 0.3, [('Toric2DCode', (2, 2)), ('RotatedPlanar2DCode', (3, 3))],
@@ -119,20 +126,25 @@ def main():
         for cls, size in codes:
             code = getattr(pc, cls)(*size)
             n = code.n
-            if n > 9:
-                continue
             dec = mk(code, em, p)
             ch = model_channel(code, r[0], r[1], r[2], p, dn, kw)
+            # per qubit: the Paulis (as (x bit, z bit)) the stated channel gives a non-zero probability
+            opts = [[((0, 0), c_[0]), ((1, 0), c_[1]), ((1, 1), c_[2]), ((0, 1), c_[3])] for c_ in ch]
+            opts = [[o for o in ol if o[1] > 0] for ol in opts]
+            total = 1
+            for ol in opts:
+                total *= len(ol)
+            if total > 70000:
+                continue
             exact = 0.0
             with contextlib.redirect_stdout(io.StringIO()):
                 cache = {}
-                for v in range(4 ** n):
-                    e = np.array([(v >> i) & 1 for i in range(2 * n)], dtype='uint8')
+                for combo in itertools.product(*opts):
+                    e = np.zeros(2 * n, dtype='uint8')
                     pr = 1.0
-                    for i in range(n):
-                        pr *= ch[i][(0, 1, 3, 2)[int(e[i]) + 2 * int(e[n + i])]]
-                    if pr == 0.0:
-                        continue
+                    for i, ((xb, zb), pq) in enumerate(combo):
+                        e[i], e[n + i] = xb, zb
+                        pr *= pq
                     syn = code.measure_syndrome(e)
                     key = syn.tobytes()
                     if key not in cache:
@@ -141,10 +153,12 @@ def main():
                     if not code.is_success(tot):
                         exact += pr
                 sim = DirectSimulation(code, em, mk(code, em, p), p, verbose=False, rng=np.random.default_rng(rng.randrange(10 ** 6)))
-                sim.run(ncal)
+                # rare failures need more trials for the same resolving power
+                ncal_here = ncal * (4 if exact < 0.1 else 1)
+                sim.run(ncal_here)
             g = sim.get_results()
             res['calib'].append({'cls': cls, 'size': list(size), 'deformation': dn, 'direction': list(r), 'p': p, 'decoder': dname,
-                                 'exact': exact, 'freq': float(g['p_est']), 'n': ncal})
+                                 'exact': exact, 'freq': float(g['p_est']), 'n': ncal_here})
     json.dump(res, open(out, 'w'))
     print({k: len(v) for k, v in res.items()})
 
